@@ -1020,7 +1020,7 @@ func main() {
 		{Op: "disc", E: 1, Models: []*mdl{M("X"), M("y")}, Filter: &fcfg{Include: []string{"*"}, Exclude: []string{"x"}}}})
 	// model ids with a leading or trailing blank (valid JSON): listed, then dropped from the listing / the endpoint removed
 	caseHist(c, "seq", 2, []op{{Op: "reg", E: 0, Models: []*mdl{M("llama3:latest "), M("x")}}, {Op: "reg", E: 1, Models: []*mdl{M("llama3:latest ")}}, {Op: "reg", E: 0, Models: []*mdl{M("x")}}, {Op: "remove", E: 1}, {Op: "reg", E: 1, Models: []*mdl{M(" padded")}}, {Op: "reg", E: 1, Models: []*mdl{}}})
-	caseHist(c, "seq", 2, []op{{Op: "disc", E: 0, Models: []*mdl{M(" phi"), M("phi")}}, {Op: "disc", E: 0, Models: []*mdl{M("phi")}}, {Op: "disc", E: 0, Models: []*mdl{M("phi ")}}, {Op: "disc", E: 0, Models: []*mdl{}}})
+	caseHist(c, "seq", 2, []op{{Op: "disc", E: 0, Models: []*mdl{M(" phi"), M("other")}}, {Op: "disc", E: 0, Models: []*mdl{M("phi")}}, {Op: "disc", E: 0, Models: []*mdl{M("phi ")}}, {Op: "disc", E: 0, Models: []*mdl{}}})
 	// model_registry.unification.stale_threshold configured (here 30 ms): an endpoint that is not listed again for longer
 	// than that still owns what it last listed, in every view
 	staleConf = &config.UnificationConfig{Enabled: true, StaleThreshold: 30 * time.Millisecond, CleanupInterval: 10 * time.Millisecond}
